@@ -72,6 +72,9 @@ func c04Session(t testing.TB, tr *tracer, f c04Fault, variant int) (int, int) {
 		pr.s2c.setCut(f.at, e)
 	case "wrfail":
 		pr.c2s.failAt = f.at
+		if f.err {
+			pr.c2s.failErr = io.EOF // what an ssh channel's Write returns once the peer is gone
+		}
 	}
 	reached := make(chan struct{})
 	var once sync.Once
@@ -223,8 +226,13 @@ func c04Session(t testing.TB, tr *tracer, f c04Fault, variant int) (int, int) {
 		_, err = fl.ReadAt(make([]byte, 600), 10)
 		done(o, err)
 		o = newOp(g, n, "WriteTo", "", 0)
-		_, err = fl.WriteTo(io.Discard)
+		var wn int64
+		wn, err = fl.WriteTo(io.Discard)
 		done(o, err)
+		if err == nil && wn != int64(pr.fileSize) {
+			// a transfer cut short by the failure must not be reported as complete
+			tr.emit("Judge", kv{"g": g, "n": o.n, "op": "WriteTo", "err": "", "mustok": false, "musterr": true})
+		}
 		o = newOp(g, n, "Close", "", 0)
 		err = fl.Close()
 		done(o, err)
@@ -450,7 +458,7 @@ func TestVerif_ConnLoss(t *testing.T) {
 			wstride = 1
 		}
 		for j := 1 + int(vSeed())%wstride; j <= W+1 && c04Failures < 3; j += wstride {
-			c04Session(t, tr, c04Fault{kind: "wrfail", at: j}, v)
+			c04Session(t, tr, c04Fault{kind: "wrfail", at: j, err: j%2 == 0}, v)
 		}
 	}
 }
